@@ -5,20 +5,32 @@ CFG = {
     "check_vo": "theories/Check/C07.vo", "prop_vo": "theories/Properties/C07.vo",
     "prop_file": "theories/Properties/C07.v",
     "theory_files": ["theories/Base/Bytes.v", "theories/Base/BytesProofs.v",
-                     "theories/Formats/Stl.v", "theories/Formats/StlProofs.v"],
+                     "theories/Formats/Stl.v", "theories/Formats/StlProofs.v", "theories/Formats/StlBigProofs.v"],
     "level_text": "Coq theorems about a byte-level model of stl.Write/Read/WriteMesh/ReadMesh (size law, both round-trip "
-                  "directions, mesh-level gather, prefix rejection) for every triangle list and byte string; the model "
-                  "is tied to the Go code on every run by evaluating it (vm_compute) on the implementation's inputs and "
-                  "outputs and by a direct oracle on the implementation's output",
+                  "directions incl. inputs with trailing bytes, chunk-size independence of the chunked reader for every "
+                  "chunk size, byte-exact record/normal placement, mesh-level gather, prefix rejection) for every triangle "
+                  "list and byte string; the model is tied to the Go code on every run by evaluating it (vm_compute) on the "
+                  "implementation's inputs and outputs and by a direct oracle on the implementation's output",
     "level_note": "Trusted: Coq kernel + vm_compute; hand-written model tied by differential correspondence only "
-                  "(generator quality bounds it); float32 rounding and facet-normal arithmetic are Go-side (tolerance check)",
+                  "(generator quality bounds it); float32 rounding and facet-normal arithmetic are Go-side (tolerance check); "
+                  "outputs of the large cases (up to ~20000 records) are compared through two 63-bit polynomial fingerprints",
     "technique": "Coq proof (induction over record lists, byte-level round trip) + vm_compute correspondence check",
     "design_ref": "DESIGN.md §4 C07",
-    "n_quick": 240, "n_thorough": 4000,
-    "rule": "random triangle meshes (0-10 triangles, welded/unwelded, +-normals, +-Position, trailing partial "
-            "triangle) through stl.WriteMesh/ReadMesh, and random well-formed STL byte strings (0-8 records, "
-            "arbitrary float bit patterns incl. NaN/-0, zero and non-zero stored normals, 1/8 truncated) through "
-            "stl.Read/Write/ReadMesh; distinct by input; non-trivial = at least one triangle record",
+    "n_quick": 200, "n_thorough": 3000,
+    "rule": "four streams. (1) n random small inputs: triangle meshes (0-10 triangles; welded, unwelded identity, as many "
+            "indices as vertices but permuted or with repeats, as many vertices as triangles; +-normals incl. far from unit "
+            "length, +-Position, trailing partial triangle) through stl.WriteMesh/ReadMesh, and well-formed STL byte strings "
+            "(0-8 records, arbitrary float bit patterns incl. NaN/-0, zero and non-zero stored normals; 1/10 truncated, "
+            "1/10 with trailing bytes) through stl.Read/Write/ReadMesh. (2) a fixed systematic stream of ~500 small meshes "
+            "enumerating index-buffer shapes against the vertex count (len = #verts-1, #verts, #verts+1, 2x, 3x, 3x+1; "
+            "identity, reversed, rotated, swapped winding, constant, strided, all permutations of three, degenerate "
+            "triangles, unreferenced vertices), each with and without normals. (3) large synthetic files through "
+            "Read/Write/ReadMesh with record counts at the reader's chunk size 4096, its multiples and powers of two, each "
+            "-1/0/+1, plus random counts up to 13000 (thorough: all of them up to 20000), some cut short or with trailing "
+            "bytes or with zero normals. (4) large synthetic meshes (same counts; unwelded identity, reversed, strided, "
+            "as many vertices as triangles, welded over few vertices; +-normals) through WriteMesh/ReadMesh. Large cases "
+            "carry (n, seed, shape) only: Coq and Go derive the same records and compare order-sensitive fingerprints. "
+            "Distinct by input; non-trivial = at least one triangle record",
     "trusted": ["facet-normal *values* (normalised mean / geometric normal) are float arithmetic: compared by the "
                 "harness against an independent float64 computation (1e-6), only their placement is in the model"],
     "modelled": ["encoding/binary little-endian layout of stl.Triangle (modelled byte for byte, checked by the "
